@@ -57,7 +57,10 @@ async function dynamic ({ leaf, resp, a, v, code, ctx }) {
   let outCtx
   try { outCtx = await X.compile(resp.content, a.kind === 'module' ? 'module' : 'script', '/p/app.js', (c) => { c._ddiast = hooks }) } catch (e) { return 0 }
   let n = 0
-  for (const spec of X.envVariants(code, ctx.tier)) {
+  // quick tier: the generated families take the 4 most discriminating environments, the others all of them
+  let envs = X.envVariants(code, ctx.tier)
+  if (ctx.tier !== 'thorough' && leaf && 'HQRNLT'.includes(leaf.fam)) envs = envs.slice(0, 4)
+  for (const spec of envs) {
     await X.runOne(outCtx, spec, (w) => { world = w })
     n++
     if (problems.length) {
